@@ -4,5 +4,5 @@ export GOFLAGS=-mod=mod GOPROXY=off GOSUMDB=off GOTOOLCHAIN=local GOWORK=off
 patch=$(realpath "$1"); props=${2:-all}; shift; shift
 wt=/tmp/one.$$; rm -rf $wt; mkdir -p $wt; rsync -a --exclude=.git /repo/ $wt/
 (cd $wt && git apply "$patch") || { echo "patch does not apply"; rm -rf $wt; exit 2; }
-/verif/bin/chfcheck -property "$props" -tier quick -evidence-dir none -repo $wt "$@" 2>&1 | sed "s#$wt/##g"
+${CHFBIN:-/verif/bin/chfcheck} -property "$props" -tier quick -evidence-dir none -repo $wt "$@" 2>&1 | sed "s#$wt/##g"
 [ -n "${KEEP:-}" ] && echo "kept $wt" || rm -rf $wt
